@@ -49,6 +49,12 @@ func (fl Flow) MustPrecede(a InstrPred, target ssa.Instruction) bool {
 	return fl.mustPrecedeWith(func(i ssa.Instruction) bool { return isEvent(a, i) }, target)
 }
 
+// MustPrecedeAny is MustPrecede with go and defer statements counted as
+// instructions in their own right (is a defer registered on every path?).
+func (fl Flow) MustPrecedeAny(a InstrPred, target ssa.Instruction) bool {
+	return fl.mustPrecedeWith(a, target)
+}
+
 func isEvent(a InstrPred, ins ssa.Instruction) bool {
 	switch ins.(type) {
 	case *ssa.Defer, *ssa.Go:
